@@ -513,6 +513,41 @@ def run_fix_scenario(case):
             res["counters"]["fix_m_scenarios"] = 1
         if tier == "quick" and len(points) > 60:
             points = rng.sample(points, 60)
+        def second_uninterrupted_run():
+            """tree / status after running the uninterrupted twin a second time, and whether that second run only RECOVERED
+            MORE than the first (every changed entry is now the recorded version of a file, or the 'name.unrecoverable' of
+            such a file that is gone) - only then is it a fix-point to compare with"""
+            if not twin2:
+                img_now = Template(a)
+                try:
+                    tpl_twin.restore()
+                    rt2 = a.cmd("fix", *fargs, variant=variant)
+                    twin2["rc"] = rt2.rc
+                    twin2["tree"] = tree_state(a)
+                    twin2["parity"] = a.parity_bytes()
+                finally:
+                    img_now.restore()
+                    img_now.cleanup()
+                import hashlib
+
+                def is_recorded(key_, ent):
+                    e0 = state0[key_[0]].get(key_[1])
+                    return (ent is not None and e0 is not None and e0[0] == "file" and ent[0] == "file" and ent[1] == len(e0[1])
+                            and ent[2] == e0[2] and ent[4] == hashlib.sha256(e0[1]).hexdigest())
+                t1, t2 = twin_tree, twin2["tree"]
+                better = t1 != t2
+                for k_ in set(t1) | set(t2):
+                    if t1.get(k_) == t2.get(k_) or is_recorded(k_, t2.get(k_)):
+                        continue
+                    base_ = k_[1][:-len(b".unrecoverable")]
+                    if k_[1].endswith(b".unrecoverable") and t2.get(k_) is None and is_recorded((k_[0], base_), t2.get((k_[0], base_))):
+                        continue
+                    better = False
+                    break
+                twin2["better"] = better
+                res["counters"]["twin_fix_not_at_fixpoint"] = res["counters"].get("twin_fix_not_at_fixpoint", 0) + (1 if t1 != t2 else 0)
+            return twin2
+
         fired = 0
         for (k, mode) in points:
             tpl.restore()
@@ -528,51 +563,32 @@ def run_fix_scenario(case):
             r2 = a.cmd("fix", *fargs, variant=variant)
             for s in r2.san:
                 res["violations"].append(("sanitizer:" + A.san_key(s), "%s: %s" % (label, s[:2500]), replay))
-            if r2.rc != twin_rc:
-                res["violations"].append(("second-fix-status-differs", "%s: second fix rc=%s, uninterrupted rc=%s: %s" % (label, r2.rc, twin_rc, r2.err[-250:].decode("latin-1")), replay))
-                continue
             now = tree_state(a)
             diffs = []
             ref_tree = twin_tree
+            if r2.rc != twin_rc:
+                t2_ = second_uninterrupted_run()
+                if t2_["better"] and t2_["rc"] == r2.rc:
+                    ref_tree = t2_["tree"]
+                else:
+                    why = ""
+                    if fargs == ["-m"] and r2.rc == 0 and twin_rc != 0 and not r2.tag("status"):
+                        # diagnosis of one recorded mechanism (F25 family): the first run gave up on X and left
+                        # 'X.unrecoverable'; for the second 'fix -m' X is missing, handle_create() renames the marker back to X,
+                        # and the still damaged bytes end under the real name with exit 0 and no report
+                        back = [k_ for k_, v_ in now.items() if v_[0] == "file" and twin_tree.get(k_) is None and
+                                twin_tree.get((k_[0], k_[1] + b".unrecoverable")) is not None and
+                                twin_tree[(k_[0], k_[1] + b".unrecoverable")][1] == v_[1] and twin_tree[(k_[0], k_[1] + b".unrecoverable")][4] == v_[4]]
+                        if back:
+                            why = "/unrecoverable-marker-dropped-by-a-second-fix-m(damaged-file-back-under-its-name,exit-0)"
+                    res["violations"].append(("second-fix-status-differs" + why, "%s: second fix rc=%s, uninterrupted rc=%s: %s" % (label, r2.rc, twin_rc, r2.err[-250:].decode("latin-1")), replay))
+                    continue
             if any((twin_tree.get(k_) is None) != (now.get(k_) is None) or (twin_tree.get(k_) is not None and now.get(k_) is not None and
                    (twin_tree[k_][0] != now[k_][0] or twin_tree[k_][1] != now[k_][1] or twin_tree[k_][4] != now[k_][4]))
                    for k_ in set(now) | set(twin_tree) if not (now.get(k_) is not None and twin_tree.get(k_) is None and k_[1].endswith(b".unrecoverable"))):
-                if not twin2:
-                    img_now = Template(a)
-                    try:
-                        tpl_twin.restore()
-                        rt2 = a.cmd("fix", *fargs, variant=variant)
-                        twin2["rc"] = rt2.rc
-                        twin2["tree"] = tree_state(a)
-                        twin2["parity"] = a.parity_bytes()
-                    finally:
-                        img_now.restore()
-                        img_now.cleanup()
-                    res["counters"]["twin_fix_not_at_fixpoint"] = res["counters"].get("twin_fix_not_at_fixpoint", 0) + (1 if twin2["tree"] != twin_tree else 0)
-                if twin2["tree"] != twin_tree:
-                    # the second run counts as the reference only if it differs from the first by RECOVERING MORE: every
-                    # entry that changed is now the recorded version of a file, or the 'name.unrecoverable' of such a file
-                    # that is gone; anything else (a run that undoes or alternates what the previous one did) is not a
-                    # fix-point to compare with
-                    import hashlib
-
-                    def is_recorded(key_, ent):
-                        e0 = state0[key_[0]].get(key_[1])
-                        return (ent is not None and e0 is not None and e0[0] == "file" and ent[0] == "file" and ent[1] == len(e0[1])
-                                and ent[2] == e0[2] and ent[4] == hashlib.sha256(e0[1]).hexdigest())
-                    t1, t2 = twin_tree, twin2["tree"]
-                    better = True
-                    for k_ in set(t1) | set(t2):
-                        if t1.get(k_) == t2.get(k_):
-                            continue
-                        if is_recorded(k_, t2.get(k_)):
-                            continue
-                        if k_[1].endswith(b".unrecoverable") and t2.get(k_) is None and is_recorded((k_[0], k_[1][:-len(b".unrecoverable")]), t2.get((k_[0], k_[1][:-len(b".unrecoverable")]))):
-                            continue
-                        better = False
-                        break
-                    if better:
-                        ref_tree = twin2["tree"]
+                t2_ = second_uninterrupted_run()
+                if t2_["better"]:
+                    ref_tree = t2_["tree"]
             def recovered_instead(key_):
                 """the resumed run holds the RECORDED version of a file (bytes and time-stamp) where the uninterrupted run
                 gave up and left 'name.unrecoverable': more was recovered, nothing is different or worse (seen when the
